@@ -731,6 +731,167 @@ def c02_correspond(ctx):
     return co.correspond(ctx.cache, LEAN, sel, ctx.seed + 2, per_entry=1 if ctx.tier == 'quick' else 6)
 
 
+# ---------------------------------------------------------------------------------------------------
+# C09: textbook component formulas in exact integer arithmetic (the oracle of the failing-input search)
+# ---------------------------------------------------------------------------------------------------
+
+def _mat9(a):
+    return [[a[0], a[1], a[2]], [a[3], a[4], a[5]], [a[6], a[7], a[8]]]
+
+
+def _mat6(a):
+    return [[a[0], a[1], a[2]], [a[1], a[3], a[4]], [a[2], a[4], a[5]]]
+
+
+def _det(m):
+    return (m[0][0] * (m[1][1] * m[2][2] - m[1][2] * m[2][1]) - m[0][1] * (m[1][0] * m[2][2] - m[1][2] * m[2][0])
+            + m[0][2] * (m[1][0] * m[2][1] - m[1][1] * m[2][0]))
+
+
+def _cof(m):
+    c = [[0] * 3 for _ in range(3)]
+    for i in range(3):
+        for j in range(3):
+            r = [k for k in range(3) if k != i]
+            q = [k for k in range(3) if k != j]
+            c[i][j] = (-1) ** (i + j) * (m[r[0]][q[0]] * m[r[1]][q[1]] - m[r[0]][q[1]] * m[r[1]][q[0]])
+    return c
+
+
+def _T(m):
+    return [[m[j][i] for j in range(3)] for i in range(3)]
+
+
+def _mm(a, b):
+    return [[sum(a[i][k] * b[k][j] for k in range(3)) for j in range(3)] for i in range(3)]
+
+
+def _mv(a, v):
+    return [sum(a[i][k] * v[k] for k in range(3)) for i in range(3)]
+
+
+def _flat9(m):
+    return [m[i][j] for i in range(3) for j in range(3)]
+
+
+def _flat6(m):
+    return [m[0][0], m[0][1], m[0][2], m[1][1], m[1][2], m[2][2]]
+
+
+def _v(a, n):
+    return list(a) + [0] * (3 - n)
+
+
+SHAPE = {'PlanarVector': 2, 'Vector': 3, 'SymmetricDyad': 6, 'Dyad': 9, 'Direction': 3, 'PlanarDirection': 2}
+
+
+def c09_oracle(e, xs):
+    """Expected numeric outputs (exact) of a tensor entry on integer inputs xs, or None."""
+    m = e['meta']
+    cls, name, args = m['cls'], m.get('name'), m.get('args', [])
+    if cls not in ('PlanarVector', 'Vector', 'SymmetricDyad', 'Dyad') or m.get('ufmt'):
+        return None
+    n = SHAPE[cls]
+    if m['kind'] == 'method':
+        a = xs[:n]
+        b = xs[n:]
+        if cls in ('Vector', 'PlanarVector'):
+            va = _v(a, n)
+            if name == 'MagnitudeSquared':
+                return [sum(t * t for t in va)]
+            if name in ('Dot', 'Cross', 'Dyadic') and len(args) == 1 and args[0] in SHAPE and SHAPE[args[0]] == n:
+                vb = _v(b, n)
+                if name == 'Dot':
+                    return [sum(p * q for p, q in zip(va, vb))]
+                if name == 'Cross':
+                    return [va[1] * vb[2] - va[2] * vb[1], va[2] * vb[0] - va[0] * vb[2], va[0] * vb[1] - va[1] * vb[0]]
+                return [va[i] * vb[j] for i in range(3) for j in range(3)]
+            return None
+        M = _mat9(a) if cls == 'Dyad' else _mat6(a)
+        fl = _flat9 if cls == 'Dyad' else _flat6
+        if name == 'Trace':
+            return [M[0][0] + M[1][1] + M[2][2]]
+        if name == 'Determinant':
+            return [_det(M)]
+        if name == 'Transpose':
+            return fl(_T(M))
+        if name == 'Cofactors':
+            return fl(_cof(M))
+        if name == 'Adjugate':
+            return fl(_T(_cof(M)))
+        return None
+    if m['kind'] == 'free' and name == 'operator*' and len(args) == 2 and all(a in SHAPE for a in args):
+        na, nb = SHAPE[args[0]], SHAPE[args[1]]
+        if na not in (6, 9):
+            return None
+        A = _mat9(xs[:na]) if na == 9 else _mat6(xs[:na])
+        bb = xs[na:na + nb]
+        if nb in (2, 3):
+            return _mv(A, _v(bb, nb))
+        B = _mat9(bb) if nb == 9 else _mat6(bb)
+        return _flat9(_mm(A, B))
+    return None
+
+
+def c09_search(ctx, failing, corr, broken):
+    rng = random.Random(ctx.seed + 9)
+    cands = [e for e in ctx.model if e['meta']['cls'] in ('PlanarVector', 'Vector', 'SymmetricDyad', 'Dyad')]
+    reqs, info = [], []
+    for e in cands:
+        for fmt in (32, 64, 80):
+            v = e['instances'][0]['fmts'].get(str(fmt))
+            if v is None:
+                continue
+            for _ in range(6 if broken else 2):
+                xs = [rng.randrange(-9, 10) for _ in range(v['n_in'])]
+                if c09_oracle(e, xs) is None and e['meta'].get('name') != 'Inverse':
+                    break
+                reqs.append((e['index'], fmt, [co.hex_of(x < 0, abs(x), 0) for x in xs], []))
+                info.append((e, fmt, xs))
+    if not reqs:
+        return []
+    res, err, rc = ctx.run_native(reqs)
+    out = []
+    for (e, fmt, xs), r in zip(info, res):
+        if r is None or r.get('error'):
+            continue
+        outs = num_outs(r)
+        if e['meta'].get('name') == 'Inverse':
+            n = SHAPE[e['meta']['cls']]
+            M = _mat9(xs[:n]) if n == 9 else _mat6(xs[:n])
+            d = _det(M)
+            has = [t for (l, t) in other_outs(r) if l.startswith('r.has')]
+            if has and (has[0] == 'true') != (d != 0):
+                out.append({'kind': 'c09-inverse-presence', 'entry': e['id'], 'fmt': fmt, 'index': e['index'],
+                            'inputs': xs, 'determinant': d, 'has_value': has[0],
+                            'what': '%s: determinant %d but has_value=%s' % (e['id'], d, has[0])})
+            elif d != 0 and outs:
+                adj = _T(_cof(M))
+                want = [Fraction(t, d) for t in (_flat9(adj) if n == 9 else _flat6(adj))]
+                for i, ((l, c), w) in enumerate(zip(outs, want)):
+                    if c in ('nan', 'inf', '-inf') or abs(co.frac_of_canon(c) - w) > abs(w) * Fraction(1, 2 ** 20) + Fraction(1, 2 ** 40):
+                        out.append({'kind': 'c09-inverse-value', 'entry': e['id'], 'fmt': fmt, 'index': e['index'],
+                                    'inputs': xs, 'component': i, 'native_output': c, 'adjugate_over_det': str(w),
+                                    'what': '%s component %d is %s, adjugate/det is %s' % (e['id'], i, c, w)})
+                        break
+            continue
+        want = c09_oracle(e, xs)
+        if want is None or len(want) != len(outs):
+            continue
+        for i, ((l, c), w) in enumerate(zip(outs, want)):
+            if c.lstrip('-') == '0 0' and w == 0:
+                continue
+            if c != co.canon(Fraction(w)):
+                out.append({'kind': 'c09-formula', 'entry': e['id'], 'fmt': fmt, 'index': e['index'],
+                            'inputs': xs, 'component': i, 'native_output': c, 'textbook_value': w,
+                            'what': '%s on integer inputs %s: component %d is %s, the textbook formula gives %d' % (
+                                e['id'], xs, i, c, w)})
+                break
+        if len(out) >= 5:
+            break
+    return out
+
+
 def quantity_corr(pred, seed_off, per_quick=2, per_thorough=30):
     def f(ctx):
         sel = [e for e in ctx.model if not e['meta']['cls'].startswith(('unit:', 'model:')) and pred(e)]
@@ -740,6 +901,20 @@ def quantity_corr(pred, seed_off, per_quick=2, per_thorough=30):
 
 
 SPECS = {
+    'C09': {
+        'id': 'C09', 'level': 'proof',
+        'lean_targets': ['PhQVerif.Audit.C09'],
+        'checkers': [],
+        'correspond': quantity_corr(lambda e: e['meta']['cls'] in ('PlanarVector', 'Vector', 'SymmetricDyad', 'Dyad'),
+                                    9, 6, 200),
+        'search': c09_search,
+        'always_search': True,
+        'audit_all': False,
+        'assumptions': ['textbook formulas = Mathlib definitions (Matrix.det, adjugate, transpose, trace, mulVec, '
+                        'matrix product, dotProduct, crossProduct, vecMulVec) on the embeddings of Theory/Tensor.lean',
+                        'the theorems are over the reals; exactness on integer inputs and the few-ulp bound are '
+                        'exercised on the real code by the integer-grid search and bit-exact correspondence'],
+    },
     'C02': {
         'id': 'C02', 'level': 'proof',
         'lean_targets': ['PhQVerif.Audit.C02'],
